@@ -121,10 +121,15 @@ func runC18(c *fw.Ctx) {
 		var hit []string
 		deadHit := false
 		for _, b := range ban {
-			if len(live[b]) > 0 {
+			switch {
+			case len(live[b]) > 0:
 				hit = append(hit, b)
-			} else if dead[b] {
-				deadHit = true
+			case dead[b] && (b == "PASTE" || b == "INCLUDE" || b == "MACRO"):
+				// the three kinds that are dealt with while scanning are "written directly" wherever
+				// they stand, also in the body of a macro nobody pastes: that is an occurrence
+				hit = append(hit, b)
+			case dead[b]:
+				deadHit = true // an ordinary kind only inside a never-pasted macro body: left open
 			}
 		}
 		bs := strings.Join(ban, "+")
